@@ -35,6 +35,7 @@ F1E5 = realval(1e-5)          # the double the code compares with
 # A-tab: rational enclosures, re-checked against the 50-digit reference on every run
 PHI_ANCHORS = {
     "-8.13": ("<", "2.2e-16"),       # Phi(-8.13) < eps = 2.220446e-16
+    "-8.2": ("<", "1.3e-16"),        # well under eps: used by the accuracy obligations of v, w
     "-8.12": (">", "2.3e-16"),       # Phi(-8.12) > eps
     "-8.11": (">", "2.5e-16"),
     "-4.2": ("<", "1.4e-5"),         # used by the 1e-5 guard of vt
@@ -317,6 +318,16 @@ def unit_wt():
                 if ok:
                     ctx.assume(r == W)      # established by the exact normal-form identity above
                 ctx.oblige("C17/wt/range", z3.And(r >= 0, r <= 1) if ok else False, meta=meta)
+            else:
+                # eps <= b < 1e-5: the inner vt calls return their asymptote.  The documented form of
+                # this branch is the exact first term plus the square of the documented asymptote of
+                # vt, |x| - t in magnitude; its range and accuracy there are numerical (hi-precision
+                # replay), the *form* is pinned here so that a change of either function shows.
+                paths["middle"] = paths.get("middle", 0) + 1
+                first = ((t.t - ax) * phi_(t.t - ax) + (t.t + ax) * phi_(-t.t - ax)) / b
+                P = field.Prover(ctx.hyps(), list(ctx.facts.values()))
+                ok = P.prove_eq(r, first + (ax - t.t) * (ax - t.t))[0]
+                ctx.oblige("C17/wt/middle-branch/returns-documented-form", ok, meta=meta)
     explore(ctx, run)
     recs = settle(ctx.all_obls, mode="R", unbounded=True)
     if not all(paths.values()):
@@ -410,9 +421,110 @@ def unit_emode(fn):
     return recs
 
 
+Y_HI = "37.5"     # above it phi(y) is subnormal / zero: no double is within 1e-6 of V there
+
+
+def unit_emode_vw(fn):
+    """relative accuracy of the real v / w on their exact branch (denominator above the epsilon
+    guard): the real source runs on (exact value, relative-error bound) proxies with phi_major /
+    phi_minor replaced by their *contracts* - relative error <= 1e-12 (the two E-mode obligations
+    above) plus the amplification of the argument's error by the condition numbers
+    kappa_Phi(y) <= y^2 + 1 and kappa_phi(y) = y^2 - and the propagated bound is proved <= 1e-6
+    for every x, t with y = x - t <= 37.5.  The guard comparison is answered 'not taken' and
+    recorded as  Phi(y) (1 + err) >= eps,  from which y > -8.2 follows by A-tab (for x >= -1000)."""
+    E = emode
+    Phi, phi = z3.Function("Phi", z3.RealSort(), z3.RealSort()), z3.Function("phi", z3.RealSort(), z3.RealSort())
+    C12 = z3.RealVal("1e-12")
+    hyps = []
+
+    def phi_major_c(a):
+        a = E.ENum.lift(a)
+        return E.ENum(Phi(a.val), (a.val * a.val + 1) * a.err + C12)
+
+    def phi_minor_c(a):
+        a = E.ENum.lift(a)
+        return E.ENum(phi(a.val), a.val * a.val * a.err + C12)
+
+    def oracle(op, a, b):
+        # `denominator < eps` is the only comparison on the exact branch; it is not taken
+        if op != "lt" or b.const != EPS:
+            raise emode.EngineError(f"E-mode: unexpected comparison {op} against {b.const!r}")
+        hyps.append(a.val * (1 + a.err) >= realval(EPS))
+        return False
+    wl = extract.load(extract.WL_COMMON, sym=False, rebind={"math": E.EMath()})
+    wl["phi_major"], wl["phi_minor"] = phi_major_c, phi_minor_c
+    x, t = z3.Real("x"), z3.Real("t")
+    y = x - t
+    t0 = time.time()
+    name = f"C17/{fn}/exact-branch/relative-error<=1e-6"
+    E.BRANCH_ORACLE[0] = oracle
+    try:
+        res = wl[fn](E.ENum(x, z3.RealVal(0)), E.ENum(t, z3.RealVal(0)))
+    except emode.EngineError as e:
+        # an operation the error model does not cover: undecided, with the hi-precision replay to settle it
+        return [driver.rec(name, "open", "emode", 0, fn=fn, mode="E", unbounded=True, note=str(e),
+                           replay={"kind": "c17_fn", "fn": fn, "x": {"v": [-8, 1], "k": "float"}, "t": {"v": [1, 100000], "k": "float"}, "clause": None})]
+    finally:
+        E.BRANCH_ORACLE[0] = None
+    if not isinstance(res, E.ENum):
+        return [driver.rec(name, "open", "emode", 0, fn=fn, note=f"returned {res!r}")]
+    # the exact value is V (resp. W) of y: abstract phi(y)/Phi(y) by a variable with the A-Mills facts
+    V = z3.Real("V")
+    Vterm = phi(y) / Phi(y)
+    ys = z3.simplify(y)
+    subs = [(Vterm, V), (phi(ys) / Phi(ys), V), (z3.simplify(Vterm), V)]
+
+    def abstract(e):
+        # the proxies simplify their error terms, so x - t also occurs as x + -1*t
+        return z3.substitute(z3.substitute(e, *subs), (ys, y))
+    err, val = abstract(res.err), abstract(res.val)
+    hyps = [abstract(h) for h in hyps]
+    hyps += [t >= z3.RealVal(str(T_LO)), t <= z3.RealVal(str(T_HI)), y <= z3.RealVal(Y_HI),
+             Phi(y) > 0, Phi(y) < 1, phi(y) > 0, V > 0,
+             # the first-order model is meaningless where phi_major underflows: x >= -1000 (the property sweeps [-40, 40])
+             x >= -1000,
+             # A-tab + A-Phi monotonicity instance: below -8.2 the mass is well under the guard
+             Phi(z3.RealVal("-8.2")) < z3.RealVal("1.3e-16"), z3.Implies(y <= z3.RealVal("-8.2"), Phi(y) <= Phi(z3.RealVal("-8.2"))),
+             # A-Mills (numerically re-checked each run): for y <= 0   1/(2 - y) <= V(y) + y  and  V(y) <= -y + 4/5
+             z3.Implies(y <= 0, z3.And(V + y >= 1 / (2 - y), V <= -y + z3.RealVal("4/5")))]
+    want_val = V if fn == "v" else V * (V + y)
+    same = tactics.check_sat(hyps + [val != want_val], timeout_ms=20000)[0] == "unsat"
+    bound = z3.RealVal("1e-6")
+    r, be, m, why = tactics.check_sat(hyps + [z3.Not(err <= bound)], timeout_ms=60000)
+    verdict = "discharged" if (r == "unsat" and same) else ("refuted" if r == "sat" else "open")
+    rp = None
+    if verdict != "discharged":
+        md = tactics.model_to_dict(m) if m is not None else {}
+        rp = {"kind": "c17_fn", "fn": fn, "x": enc_model(md, "x", KFLOAT), "t": enc_model(md, "t", KFLOAT), "clause": None}
+    recs = [driver.rec(name, verdict, be, time.time() - t0, fn=fn, mode="E", unbounded=True, replay=rp,
+                       note=(why or "") + ("" if same else "; the analysed value is not V / W of x - t"))]
+    # canary: 1e-13 cannot hold (the contracts of phi_major / phi_minor alone allow 2e-12)
+    r2, be2, _m2, _ = tactics.check_sat(hyps + [z3.Not(err <= z3.RealVal("1e-13"))], timeout_ms=20000)
+    recs.append(driver.rec(f"C17/{fn}/exact-branch/canary-relative-error<=1e-13", "refuted" if r2 == "sat" else "discharged", be2, 0, kind="canary", fn=fn))
+    return recs
+
+
+def unit_mills_recheck():
+    """numeric re-check (50 digits, dense grid) of the A-Mills instances used by the accuracy
+    obligations of v / w - a sanity check of assumptions, reported as such"""
+    from .. import hiprec as H
+    from decimal import Decimal as D
+    bad = []
+    z = D(0)
+    while z <= D("8.5"):
+        yv = -z
+        Vv = H.phi(yv) / H.Phi(yv)
+        if not (Vv + yv >= 1 / (2 - yv) and Vv <= -yv + D("0.8")):
+            bad.append(str(z))
+        z += D("0.01")
+    return [driver.rec("C17/A-Mills/numeric-recheck", "discharged" if not bad else "open", "decimal-50-digits", 0, kind="vacuity",
+                       fn="A-Mills", note=str(bad[:5]) if bad else "1/(2-y) <= V(y)+y and V(y) <= -y+4/5 confirmed on 851 points of [-8.5, 0]")]
+
+
 def units(tier):
     return [("unit_tab", ()), ("unit_v", ()), ("unit_w", ()), ("unit_vt", ()), ("unit_wt", ()), ("unit_contract_v_vt", ()),
-            ("unit_emode", ("phi_major",)), ("unit_emode", ("phi_minor",))]
+            ("unit_emode", ("phi_major",)), ("unit_emode", ("phi_minor",)),
+            ("unit_emode_vw", ("v",)), ("unit_emode_vw", ("w",)), ("unit_mills_recheck", ())]
 
 
 def main(tier, seed):
@@ -428,9 +540,10 @@ def main(tier, seed):
             "A-tab: rational enclosures of Phi / erf at a few fixed points (e.g. Phi(-8.13) < 2^-52 < Phi(-8.12)), numerically re-checked against a 50-digit reference on every run",
             "A-Mills (assumed real analysis): V > 0, V(y) + y > 0, V(y) <= -y - 1/y for y < 0, 0 < W < 1, -V(-x-t) <= V~(x,t) <= V(x-t), 0 < W~ <= 1",
             "E-mode: first-order relative-error model with u = 2^-53; A-libm: erf/erfc/exp within 4u of the mathematical function, sqrt correctly rounded; assumed condition-number bounds kappa_erf <= 1, kappa_erfc(a) <= 2a^2+2a+1 (a > 0), <= 1 (a <= 0); x in [-37.5, 38]",
-            "NOT DECIDED: 'vt within 2t of V~' and 'wt within 20t + 1e-13/t of W~' on the asymptotic branches; the relative accuracy 1e-6 of v and w on the exact branch (needs a Mills-ratio lower bound for the cancellation V + y); wt on the sub-path where its inner vt calls take the 1e-5 asymptote",
+            "accuracy of v, w on the exact branch (E-mode): contracts of phi_major / phi_minor (relative error <= 1e-12, the two obligations above) + assumed condition numbers kappa_Phi(y) <= y^2 + 1, kappa_phi(y) = y^2 + A-Mills instances 1/(2 - y) <= V(y) + y and V(y) <= -y + 4/5 for y <= 0 (numerically re-checked on a grid each run); domain x >= -1000 and y = x - t <= 37.5 (above it phi(y) is subnormal or zero and no double is within 1e-6 relative of V)",
+            "NOT DECIDED: 'vt within 2t of V~' and 'wt within 20t + 1e-13/t of W~' on the asymptotic branches; the '2 percent of V / W' clause on the asymptotic branch of v and w; the range of wt on the sub-path where its inner vt calls take the 1e-5 asymptote (its returned form is pinned, its range is numerical)",
             "R-mode obligations treat machine arithmetic as mathematical; t in [1e-8, 1e-2]",
         ],
         explanation=("The real v, w, vt, wt are executed from their AST on symbolic (x, t) with phi_major/phi_minor replaced by contract functions anchored by tabulated enclosures; every path (guard / exact / asymptote, x < 0 / x >= 0) is explored and its returned expression proved equal to the paper's V, W, V~, W~ (exact normal forms with Phi reflection and phi evenness syntactic) or to the documented asymptote, "
-                     "the guards are proved to fire only in the tail (y < -8.12), v > 0, w and wt in [0,1], |vt(x)+vt(-x)| <= 2t, and the relational v/vt clauses used by C05/C07. The real phi_major/phi_minor with the stdlib NormalDist.cdf/pdf extracted from the test interpreter's statistics.py run on (value, relative-error-bound) proxies; the propagated first-order bound must be <= 1e-12 on [-37.5, 38]. Loop-free code: no bound on inputs."),
+                     "the guards are proved to fire only in the tail (y < -8.12), v > 0, w and wt in [0,1], |vt(x)+vt(-x)| <= 2t, and the relational v/vt clauses used by C05/C07. The real v and w also run on (value, relative-error-bound) proxies with phi_major/phi_minor replaced by their accuracy contracts: on the exact branch the propagated bound is proved <= 1e-6 (the cancellation in V + y is bounded by Mills-ratio instances). The real phi_major/phi_minor with the stdlib NormalDist.cdf/pdf extracted from the test interpreter's statistics.py run on (value, relative-error-bound) proxies; the propagated first-order bound must be <= 1e-12 on [-37.5, 38]. Loop-free code: no bound on inputs."),
     )
